@@ -137,7 +137,7 @@ def load_known_findings(prop):
     if not os.path.exists(p):
         return [], []
     data = json.load(open(p))
-    kf = [f for f in data.get("findings", []) if f["property"] == prop]
+    kf = [f for f in data.get("findings", []) if f["property"] == prop or prop in f.get("also", [])]
     fixed = [f for f in data.get("fixed", []) if f["property"] == prop]
     return kf, fixed
 
